@@ -233,6 +233,25 @@ func c11(g *Gen) {
 			os.MkdirAll(filepath.Join(dir, "usesbroken"), 0755)
 			os.WriteFile(filepath.Join(dir, "usesbroken", "file.go"), []byte("package usesbroken\n\nimport \"ex.test/brokendep\"\n\ntype H struct{ X brokendep.T }\n"), 0644)
 			{
+				// requested twice: the second, identical request reports the error again, and nothing of
+				// the two packages is handed out
+				p := parser.New()
+				cfg := &packages.Config{Dir: dir, Env: append(os.Environ(), "GOFLAGS=-mod=mod", "GOWORK=off")}
+				err1 := p.LoadPackagesWithConfigForTesting(cfg, reqL[0])
+				err2 := p.LoadPackagesWithConfigForTesting(cfg, "ex.test/usesbroken")
+				err3 := p.LoadPackagesWithConfigForTesting(cfg, "ex.test/usesbroken")
+				if err1 == nil && err2 != nil && err3 == nil {
+					eprob = append(eprob, "ex.test/usesbroken imports a package that does not parse: the first request reports the error, the second identical request reports none")
+					if u, err := p.NewUniverse(); err == nil {
+						for _, bad := range []string{"ex.test/usesbroken", "ex.test/brokendep"} {
+							if pk, ok := u[bad]; ok && len(pk.Types) > 0 {
+								eprob = append(eprob, fmt.Sprintf("... and the universe holds %d type(s) of %s", len(pk.Types), bad))
+							}
+						}
+					}
+				}
+			}
+			{
 				p := parser.New()
 				err := p.LoadPackagesWithConfigForTesting(&packages.Config{Dir: dir, Env: append(os.Environ(), "GOFLAGS=-mod=mod", "GOWORK=off")}, "ex.test/usesbroken")
 				if err == nil {
@@ -257,7 +276,7 @@ func c11(g *Gen) {
 					eprob = append(eprob, "requesting it a second time gave no error")
 				}
 			}
-			g.Emit("C11.errors!", list(atom(strings.Join(eprob, "; "))), boolS(len(eprob) == 0), "bad-requests", "broken-dependency-requested-later", "half-parsable-package-requested-again")
+			g.Emit("C11.errors!", list(atom(strings.Join(eprob, "; "))), boolS(len(eprob) == 0), "bad-requests", "broken-dependency-requested-later", "half-parsable-package-requested-again", "importer-of-broken-package-requested-twice")
 		}
 		os.Chdir(cwd)
 		os.RemoveAll(dir)
